@@ -873,6 +873,69 @@ def scenario_p2p(rng, k):
 
 # ---------------------------------------------------------------------------------------------- stream definition
 
+def scenario_marks(rng):
+    """the read and received marks (C08, C09): a member reads ahead of what it has acknowledged as received, or acknowledges and reads
+    in turn; the topic is then taken out of memory (everybody leaves and it idles out, or the server restarts) and the members and
+    the owner ask for the description and the list of subscribers again - before and after, with no request in between"""
+    out = _preamble(rng)
+    kind = rng.choice(["grp", "grp", "chan", "p2p"])
+    if kind == "p2p":
+        T = {"S1": "U2", "S2": "U1"}
+        key = "P:U1:U2"
+        members = ["S1", "S2"]
+        out.append(f"sub S1 U2")
+        out.append(f"sub S2 U1")
+        name = lambda s: T[s]
+    else:
+        out.append("newgrp S1" + (" chan=1" if kind == "chan" else ""))
+        key = "T1"
+        members = ["S1", "S2", "S3"]
+        spell = {"S1": "T1", "S2": "chn:T1" if kind == "chan" else "T1", "S3": "T1"}
+        if kind == "chan":
+            out.append("setsub S1 T1 user=U3 mode=JRWPS")
+        out.append(f"sub S2 {spell['S2']}")
+        out.append(f"sub S3 {spell['S3']}")
+        name = lambda s: spell[s]
+    n = 0
+    for _ in range(2 + rng.below(5)):
+        n += 1
+        s_ = rng.choice(["S1", "S1", "S3"] if kind == "chan" else members)
+        out.append(f"pub {s_} {name(s_)} K{n}")
+    look = lambda: [f"get {s_} {name(s_)} {w}" for s_ in members for w in (["desc", "sub"] if rng.chance(1, 2) else ["desc"])]
+    for _ in range(1 + rng.below(4)):
+        s_ = rng.choice(members)
+        k = rng.below(6)
+        if k == 0:
+            out.append(f"note {s_} {name(s_)} recv {1 + rng.below(n)}")
+        elif k in (1, 2, 3):
+            out.append(f"note {s_} {name(s_)} read {1 + rng.below(n)}")          # reading ahead of the received mark
+        elif k == 4:
+            out.extend([f"note {s_} {name(s_)} recv {n}", f"note {s_} {name(s_)} read {1 + rng.below(n)}"])
+        else:
+            out.extend([f"note {s_} {name(s_)} read {1 + rng.below(n)}", f"note {s_} {name(s_)} recv {1 + rng.below(n)}"])
+    out.extend(look())
+    # out of memory and back
+    if rng.chance(1, 2):
+        out.append("restart")
+    else:
+        for s_ in members:
+            out.append(f"leave {s_} {name(s_)}")
+        out.append(f"unload {key}")
+    if rng.chance(1, 2):
+        out.extend(look())          # from sessions which are not attached (served from the store)
+    for s_ in members:
+        if rng.chance(3, 4):
+            out.append(f"sub {s_} {name(s_)}")
+    out.extend(look())
+    if rng.chance(1, 2):
+        s_ = rng.choice(members)
+        out.append(f"pub {s_} {name(s_)} K{n + 1}")
+        s2 = rng.choice(members)
+        out.append(f"note {s2} {name(s2)} read {n + 1}")
+        out.extend(look())
+    return out
+
+
 def gen_world(rng, tier):
     ncases = 600 if tier == "thorough" else 420
     for i in range(ncases):
@@ -888,6 +951,10 @@ def gen_world(rng, tier):
         if i % 6 == 1:
             # crossings are extra too (a generator of their own)
             for l in scenario_cross(rng.fork(f"cross-scenario-{i}")):
+                yield l
+        if i % 6 == 4:
+            # the marks across a reload (a generator of their own)
+            for l in scenario_marks(rng.fork(f"marks-scenario-{i}")):
                 yield l
         if i % 12 == 5:
             # the histories around a deleted account are extra: drawn from a generator of their own, the rest of the stream is unchanged
